@@ -51,11 +51,12 @@ Corrupt(jj, kk) ==
        [] kk = "plus-gone" -> JoinLF(SubSeq(ls, 1, b + 2) \o SubSeq(ls, b + 4, Len(ls)))   \* separator line missing altogether
        [] kk = "quals-long"  -> JoinLF([ls EXCEPT ![b + 4] = Append(@, A)])
        [] kk = "quals-short" -> JoinLF([ls EXCEPT ![b + 4] = SubSeq(@, 1, Len(@) - 1)])
+       [] kk = "quals-short2" -> JoinLF([ls EXCEPT ![b + 4] = SubSeq(@, 1, Len(@) - 2)])
        [] kk = "cut1" -> JoinLF(SubSeq(ls, 1, b + 1))
        [] kk = "cut2" -> JoinLF(SubSeq(ls, 1, b + 2))
        [] kk = "cut3" -> JoinLF(SubSeq(ls, 1, b + 3))
 
-Kinds == {"no-at", "no-plus", "plus-gone", "quals-long", "quals-short", "cut1", "cut2", "cut3"}
+Kinds == {"no-at", "no-plus", "plus-gone", "quals-long", "quals-short", "quals-short2", "cut1", "cut2", "cut3"}
 
 \* a corruption must really make the record malformed (e.g. removing '@' from the name "@x" leaves "@x": not a corruption;
 \* removing the '+' line in front of qualities that themselves look like a separator may re-synchronise: excluded by the guard)
@@ -63,6 +64,7 @@ IsCorruption(jj, kk) ==
   LET r == recs[jj] IN
   CASE kk = "no-at" -> (IF r.name = <<>> THEN TRUE ELSE r.name[1] # AT)
     [] kk = "quals-short" -> Len(r.quals) > 0
+    [] kk = "quals-short2" -> Len(r.quals) > 1
     [] kk = "plus-gone" -> LET ls == Lines(recs)
                                rest == SubSeq(ls, 4 * (jj - 1) + 1, 4 * (jj - 1) + 2) \o SubSeq(ls, 4 * (jj - 1) + 4, Len(ls))
                            IN ~GroupOK(rest, 1)
